@@ -55,6 +55,9 @@ class MultiFunction:
         # (cached for each algorithm for performance)
         algorithm_class = type(self)
         cache_data = MultiFunction._handlers_cache.get(algorithm_class)
+        if cache_data and len(cache_data[0]) != len(Expr._ufl_all_classes_):
+            # New types have been registered since the handlers were cached
+            cache_data = None
         if not cache_data:
             handler_names = [None] * len(Expr._ufl_all_classes_)
 
